@@ -348,7 +348,7 @@ impl Property for C19 {
 
         // (b) real highlight output
         let corpus_files = corpus();
-        let cases = ctx.tier.pick(1_500, 40_000);
+        let cases = ctx.tier.pick(5_000, 40_000);
         ctx.run_streams("c19-real", cases, 700, |ctx, bytes| {
             let mut c = Choices::new(bytes);
             let (ws, sw) = if c.chance(215) {
